@@ -109,10 +109,13 @@ impl W {
     }
 }
 
-pub fn run(seed: u64, ntraces: usize) {
+pub fn run(seed: u64, ntraces: usize) { run_d(seed, ntraces, None) }
+
+/// every trace opens with directed schedule `only` (if given) instead of `t % 18`
+pub fn run_d(seed: u64, ntraces: usize, only: Option<u64>) {
     let mut r = Rng::new(seed ^ 0x175);
     for t in 0..ntraces {
-        let d = t % 18;      // which directed schedule opens the trace
+        let d = only.map(|x| x as usize).unwrap_or(t % 18);      // which directed schedule opens the trace
         let mut w = World::new();
         let owner = user_addr(1); let operator = user_addr(2); let relayer = user_addr(3);
         let users = vec![user_addr(4), user_addr(5), user_addr(6)]; let dest = user_addr(7);
@@ -135,6 +138,8 @@ pub fn run(seed: u64, ntraces: usize) {
         chains.push((b"twin".to_vec(), b"axelar1hub".to_vec()));          // a directly trusted chain whose peer address string equals the hub's: it still is not the hub chain
         // the service's own chain name: mixed case in every fourth trace (it is hashed into every token id exactly as given)
         let own_chain: Vec<u8> = if t % 4 == 3 { b"MultiversX-D1".to_vec() } else { b"multiversx".to_vec() };
+        // every sixth trace the deployment list names the service's OWN chain first (a shared table of all chains): every other entry keeps its own address
+        if t % 6 == 1 { chains.insert(0, (own_chain.clone(), b"0xITSself".to_vec())); }
         let mut args = vec![gw.to_vec(), gas.to_vec(), tmt.to_vec(), operator.to_vec(), own_chain.clone(), big(chains.len() as u64)];
         for (c, _) in &chains { args.push(c.clone()); }
         args.push(big(chains.len() as u64)); for (_, a) in &chains { args.push(a.clone()); }
@@ -223,7 +228,7 @@ pub fn run(seed: u64, ntraces: usize) {
             else if d == 3 { script.extend([47u64, 46, 23, 46, 3]); }  // steps called with different arguments: (1000, minter) then (0, no minter)
             else if d == 17 { script.extend([27u64, 45, 3, 3, 26]); }     // (17): the second issuance FAILS after the first was recorded: the recorded token stays, a retry is refused
             else { script.extend([3u64, 23, 3, 3]); }
-            if d == 2 { script.extend([40u64, 50, 43, 41, 40, 67, 41, 69]); script.extend([40u64, 51, 67, 53, 69, 41, 79]); script.extend([40u64, 19, 41, 40, 41]); }   // an approval is REPLACED by a second one (the first destination minter is refused, the second accepted);   // ... then: an approval is replaced while its chain is no longer trusted (refused), the chain is trusted again, the replacement is not usable, the original is   // the minter approves a remote deployment, hands the role on, then the stale approval is used                   // step 3, second issuance callback, step 3 again (twice)
+            if d == 2 { script.extend([81u64, 22, 40, 50, 43, 41, 40, 67, 41, 69]); script.extend([40u64, 51, 67, 53, 69, 41, 79]); script.extend([40u64, 19, 41, 40, 41]); }   // an approval is REPLACED by a second one (the first destination minter is refused, the second accepted);   // ... then: an approval is replaced while its chain is no longer trusted (refused), the chain is trusted again, the replacement is not usable, the original is   // the minter approves a remote deployment, hands the role on, then the stale approval is used                   // step 3, second issuance callback, step 3 again (twice)
         }
         if d == 1 || d == 6 || d >= 10 {
             // (1) an inbound link / deploy message for a token id that is already bound; (6) hub-wrapped inbound messages while paused
@@ -299,7 +304,7 @@ pub fn run(seed: u64, ntraces: usize) {
                     script.extend([22u64, 56, 80, 1700, 51, 1600, 25, 24, 53, 197, 1700, 25, 54, 1600, 24, 53, 197, 1702, 52, 25, 24, 55, 197, 70, 26, 26, 57, 26, 26, 77, 78, 26]);
                 }
                 else {              // d == 13: message-type words outside the known range, direct and hub-wrapped
-                    for i in 0..6u64 { script.push(2000 + i); script.push(2100 + i); }
+                    for i in 0..11u64 { script.push(2000 + i); script.push(2100 + i); }
                 }
             }
         }
@@ -367,6 +372,12 @@ pub fn run(seed: u64, ntraces: usize) {
                 g.its_tx("setTrusted", &ow, "setTrustedAddress", vec![b"axelar".to_vec(), b"hub".to_vec()], 0, &[], json!({"chain": hx(b"axelar"), "a": hx(b"hub")})); continue; }
             if a == 76 { // the account that accepted the service's operatorship hands it back to the proposer
                 if let Some((from, to)) = g.proposed.clone() { let (ok, _, _) = g.its_tx("transferOp", &to, "transferOperatorship", vec![from.to_vec()], 0, &[], json!({"a": hx(from.as_bytes())})); if ok { g.operator = from; } }
+                continue; }
+            if a == 81 { // the plain endpoint: deployRemoteInterchainToken(salt, ethereum) for the newest native token, by its deployer, with gas
+                if let Some(tk) = g.toks.iter().rev().find(|t| t.kind == "native") {
+                    let (deployer, salt) = (tk.deployer.clone(), tk.salt.clone());
+                    g.its_tx("deployRemote", &deployer, "deployRemoteInterchainToken", vec![salt.clone(), b"ethereum".to_vec()], 500, &[],
+                        json!({"salt": hx(&salt), "minter": hx(&[0u8; 32]), "dchain": hx(b"ethereum"), "dminter": Value::Null})); }
                 continue; }
             if a == 79 { // a remote deployment naming the DEPLOYER's own address as destination minter, without any approval: refused
                 if let Some(tk) = g.toks.iter().rev().find(|t| t.kind == "native" && t.minter.len() == 32) {
@@ -477,13 +488,15 @@ pub fn run(seed: u64, ntraces: usize) {
                     let tid = ti.map(|i| g.toks[i].id.clone()).unwrap_or_else(|| r.bytes(32));
                     let maxa = ti.map(|i| if g.toks[i].kind == "lock" { g.toks[i].custody.max(1) } else { 40 }).unwrap_or(40);
                     let amount = if fvar.is_some() { 1 + r.below(maxa.min(15)) } else { match r.below(6) { 0 => maxa, 1 => maxa + 1, _ => 1 + r.below(maxa) } };
+                    // (inbound LINK_TOKEN, `flink`: the requested manager type cycles through all five kinds and an unknown one; the type word -- the third -- is written directly)
                     let inner = match a {
                         6 => { let recipient = if fvar.is_none() && r.chance(1, 8) { let mut v = r.pick(&g.users).to_vec(); match r.below(4) { 0 => vec![1, 2, 3], 1 => { v.push(7); v }, 2 => { v.truncate(31); v }, _ => { v.extend_from_slice(&[0u8; 32]); v } } } else if r.chance(1, 8) { g.toks.first().map(|t| t.tm.to_vec()).unwrap_or(g.dest.to_vec()) } else { r.pick(&g.users).to_vec() };
                                let osrc = match r.below(4) { 0 => r.bytes(40), 1 => vec![], _ => b"0xsender".to_vec() };
                                transfer_payload(&tid, &osrc, &recipient, amount, b"") }
                         7 => { let osrc = match r.below(4) { 0 => r.bytes(33), _ => b"0xsender".to_vec() }; let data = match r.below(4) { 0 => r.bytes(70), 1 => r.bytes(32), _ => b"with-data".to_vec() };
                                transfer_payload(&tid, &osrc, g.dest.as_bytes(), amount, &data) }
-                        _ => if flink { link_payload(&r.bytes(32), 2, b"0xsrc", &tok2[..], &g.operator.to_vec()) } else if fdeploy { deploy_payload(&r.bytes(32), b"Remote", b"RMT", 6, g.users[1].as_bytes()) } else if fbound == Some(2) { deploy_payload(&tid, b"Remote", b"RMT", 6, &[]) } else if fbound.is_none() && r.chance(2, 3) {
+                        _ => if flink { let lty = [2u64, 3, 4, 1, 0, 5][(g.msg % 6) as usize];
+                                        let mut p = link_payload(&r.bytes(32), 2, b"0xsrc", &tok2[..], &g.operator.to_vec()); p[95] = lty as u8; p } else if fdeploy { deploy_payload(&r.bytes(32), b"Remote", b"RMT", 6, g.users[1].as_bytes()) } else if fbound == Some(2) { deploy_payload(&tid, b"Remote", b"RMT", 6, &[]) } else if fbound.is_none() && r.chance(2, 3) {
                                 let existing: Vec<&Tok> = g.toks.iter().filter(|t| t.kind == "remote-native").collect();
                                 let tid2 = if !existing.is_empty() && r.chance(2, 3) { existing[0].id.clone() } else { r.bytes(32) };
                                 let minter = match r.below(4) { 0 => vec![], 1 => vec![9, 9], 2 => { let mut v = r.pick(&g.users).to_vec(); v.push(1); v }, _ => r.pick(&g.users).to_vec() };
@@ -493,7 +506,9 @@ pub fn run(seed: u64, ntraces: usize) {
                     // an amount word above 2^128 (legal uint256): one transfer in ten, and always for the directed code 198
                     let inner = if (a == 6 || a == 7) && ((fvar.is_none() && r.chance(1, 10)) || a_raw == 198) { let mut p = inner; p[128 + 15] |= 1; p } else { inner };
                     let inner = if let Some(i) = ftype { let mut p = inner.clone(); for b in p[0..32].iter_mut() { *b = 0; }
-                        match i { 0 => p[24] = 0x80, 1 => p[23] = 1, 2 => p[0] = 0x80, 3 => p[31] = 6, 4 => p[31] = 7, _ => p[27] = 1 }; p } else { inner };
+                        match i { 0 => p[24] = 0x80, 1 => p[23] = 1, 2 => p[0] = 0x80, 3 => p[31] = 6, 4 => p[31] = 7, 5 => p[27] = 1,
+                                  // a KNOWN type in the low bytes under non-zero high bytes: 2^64 + 1, 2^255 + 5, 2^128 + 4, 2^192 + 0, 2^63 + 1 -- none of them is a message type
+                                  6 => { p[23] = 1; p[31] = 1 }, 7 => { p[0] = 0x80; p[31] = 5 }, 8 => { p[15] = 1; p[31] = 4 }, 9 => { p[7] = 1 }, _ => { p[24] = 0x80; p[31] = 1 } }; p } else { inner };
                     let variant = if let Some(v) = fvar { v } else if g.paused && r.chance(1, 3) { 2 } else if r.chance(2, 3) { 0 } else { r.below(21) };
                     let (chain, src, payload): (Vec<u8>, Vec<u8>, Vec<u8>) = match variant {
                         1 => (b"avalanche".to_vec(), b"hub".to_vec(), inner.clone()),                                   // direct message from a hub-routed chain
@@ -575,7 +590,10 @@ pub fn run(seed: u64, ntraces: usize) {
                     let dm: Option<Vec<u8>> = match r.below(3) { 0 => None, 1 => Some(b"0xremoteminter".to_vec()), _ => Some(b"0xother".to_vec()) };
                     let mut args = vec![salt.clone(), minter.clone(), dchain.clone()]; if let Some(d) = &dm { args.push(d.clone()); }
                     let gasv = r.below(3) * 1000;
-                    g.its_tx("deployRemote", &deployer, "deployRemoteInterchainTokenWithMinter", args, gasv, &[],
+                    // without a minter and a destination minter the plain endpoint deployRemoteInterchainToken(salt, chain) is the same operation: used every other time
+                    let plain = minter == vec![0u8; 32] && dm.is_none() && g.msg % 2 == 0;
+                    let (ep, args) = if plain { ("deployRemoteInterchainToken", vec![salt.clone(), dchain.clone()]) } else { ("deployRemoteInterchainTokenWithMinter", args) };
+                    g.its_tx("deployRemote", &deployer, ep, args, gasv, &[],
                         json!({"salt": hx(&salt), "minter": hx(&minter), "dchain": hx(&dchain), "dminter": dm.as_ref().map(|d| hx(d))}));
                 }
                 15 => { let token = match r.below(4) { 0 => b"EGLD".to_vec(), 1 => tok2.clone(), _ => tok.clone() };
@@ -756,10 +774,15 @@ pub fn run(seed: u64, ntraces: usize) {
                             let mut ok = force_issue_ok || (!force_issue_fail && r.chance(2, 3)); if tm_egld < bn(ISSUE_COST) { ok = false; }
                             let newtok = format!("MTK-{:06x}", r.below(0xffffff)).into_bytes();
                             let forged = if ok { TxResult { result_values: vec![newtok.clone()], ..TxResult::empty() } } else { TxResult { result_status: 4, result_message: "issue failed".to_string(), ..TxResult::empty() } };
-                            let cb = async_callback_tx_input(ac, &forged, &g.w.r.blockchain_mock.vm.builtin_functions);
-                            let (tm2, nt) = (tm.clone(), newtok.clone());
-                            let st = g.w.run_input_after(move |rr| { if ok { let acc = rr.blockchain_mock.state.accounts.get_mut(&tm2).unwrap(); acc.egld_balance -= bn(ISSUE_COST);
-                                acc.esdt.set_roles(nt.clone(), vec![b"ESDTRoleLocalMint".to_vec(), b"ESDTRoleLocalBurn".to_vec()]); } }, cb);
+                            let mut cb = async_callback_tx_input(ac, &forged, &g.w.r.blockchain_mock.vm.builtin_functions);
+                            // a failed issuance RETURNS the issue cost with the error callback (it left the manager with the call): the callback carries that EGLD
+                            let returned = !ok && tm_egld >= bn(ISSUE_COST);
+                            if returned { cb.egld_value = bn(ISSUE_COST); }
+                            let (tm2, nt, sys) = (tm.clone(), newtok.clone(), cb.from.clone());
+                            let st = g.w.run_input_after(move |rr| {
+                                if ok || returned { let acc = rr.blockchain_mock.state.accounts.get_mut(&tm2).unwrap(); acc.egld_balance -= bn(ISSUE_COST);
+                                    if ok { acc.esdt.set_roles(nt.clone(), vec![b"ESDTRoleLocalMint".to_vec(), b"ESDTRoleLocalBurn".to_vec()]); } }
+                                if returned { crate::vm::credit_or_create(rr, &sys, &bn(ISSUE_COST)); } }, cb);
                             if ok && st.res.result_status == 0 { for tk in g.toks.iter_mut() { if tk.tm == tm && tk.token.is_none() { tk.token = Some(newtok.clone()); } } }
                             g.steps.push(json!({"op": {"op": "issue", "id": pid, "tm": hx(tm.as_bytes()), "res": if ok { Some(hx(&newtok)) } else { None }, "now": g.now}, "res": st.json}));
                             true
